@@ -899,6 +899,21 @@ func (r *e1run) cutsAgree() bool {
 // checkSegmentParts: a segment's bytes are the concatenation of its parts' bytes, its parts decode to the same
 // units, each part is one fragment whose sequence number is the part number, and part DURATIONs match the media.
 func (r *e1run) checkSegmentParts(si int, seg *uriInfo, msn int) {
+	if r.cfg.Variant == "fmp4" && seg.dec != nil && len(seg.dec.frags) > 0 {
+		// fMP4 variant: a segment is one part; the fragments of consecutive segments are numbered consecutively (the part
+		// numbers run on from segment to segment)
+		if r.fragSeq == nil {
+			r.fragSeq = map[int]map[int]uint32{}
+		}
+		if r.fragSeq[si] == nil {
+			r.fragSeq[si] = map[int]uint32{}
+		}
+		first := seg.dec.frags[0].seq
+		if prev, ok := r.fragSeq[si][msn-1]; ok && first != prev+1 && !r.faulted {
+			r.add("C05", "fragment-sequence-number", "stream %s: segment %d starts with fragment sequence number %d, the previous segment ended with %d", r.mi.m.streams[si].id, msn, first, prev)
+		}
+		r.fragSeq[si][msn] = seg.dec.frags[len(seg.dec.frags)-1].seq
+	}
 	if r.cfg.Variant != "ll" {
 		return
 	}
